@@ -115,15 +115,23 @@ def toggle_plain(res, tier):
     res.sample(dict(component="Toggle", history=[[1, "get"], [1, "on"], [0, "off"], [1, "bool"]], expected=[True, True, False, False]))
 
 
-def toggle_debounced(res, tier, period_ticks):
+def toggle_debounced(res, tier, period_ticks, early=False):
+    """early=True: every history starts at FPGA time 0 (restartTiming), so the first samples are taken while the clock is
+    still below the debounce period - the only situation where the initial value of the debouncer's `latest` matters."""
     from robotpy_ext.control.toggle import Toggle
+    import hal.simulation as hs
 
     P = F(period_ticks, 64)
     ops = [(adv, lvl, acc) for adv in (0, 1, 2, 4) for lvl in (0, 1) for acc in ("get", "on", "off")]
     cap = P + F(5, 64)
 
     def run(h):
-        env.align()
+        if early:
+            hs.restartTiming()
+            if env.fpga_us() != 0:
+                raise core.HarnessError("restartTiming() did not bring the paused clock to 0")
+        else:
+            env.align()
         st = Stick()
         t = Toggle(st, 3, debounce_period=float(P))
         viol = []
@@ -174,7 +182,11 @@ def toggle_debounced(res, tier, period_ticks):
         res.outcome(f"td:{state}:{key[1]}")
         return key, viol
 
-    bfs(f"Toggle(debounce={period_ticks}t)", ops, run, res, 12 if tier == "quick" else 16, 3)
+    if early:
+        bfs(f"Toggle(debounce={period_ticks}t,clock-from-0)", ops, run, res, 6 if tier == "quick" else 9, 3)
+        env.advance(64)
+    else:
+        bfs(f"Toggle(debounce={period_ticks}t)", ops, run, res, 12 if tier == "quick" else 16, 3)
 
 
 # ------------------------------------------------------------------------------------------ ButtonDebouncer
@@ -339,7 +351,7 @@ class Capture(logging.Handler):
 def watchdog(res, tier, T=20000):
     from robotpy_ext.misc.simple_watchdog import SimpleWatchdog
 
-    ops = [("adv", 0), ("adv", T - 1), ("adv", T), ("adv", T + 1), ("adv", 1000000), ("adv", 1000001), ("reset",), ("epoch",), ("expired",), ("print",)]
+    ops = [("adv", 0), ("adv", T - 1), ("adv", T), ("adv", T + 1), ("adv", 1000000), ("adv", 1000001), ("reset",), ("epoch",), ("expired",), ("print",), ("setT",)]
     lg = logging.getLogger("simple_watchdog")
     cap = Capture()
     lg.addHandler(cap)
@@ -354,18 +366,23 @@ def watchdog(res, tier, T=20000):
         last_reset = env.fpga_us()
         viol = []
         warned = []
+        strict = True  # False between setTimeout() and the next reset(): whether setTimeout re-arms is not stated, only the warning rate limit is checked there
         for i, op in enumerate(h):
             if op[0] == "adv":
                 env.advance_us(op[1])
             elif op[0] == "reset":
                 w.reset()
                 last_reset = env.fpga_us()
+                strict = True
+            elif op[0] == "setT":
+                w.setTimeout(T / 1e6)
+                strict = False
             elif op[0] == "epoch":
                 w.addEpoch(f"e{i}")
             elif op[0] == "expired":
                 out = bool(w.isExpired())
                 exp = env.fpga_us() - last_reset > T
-                if out != exp:
+                if strict and out != exp:
                     viol.append((f"isExpired-wrong:{'early' if out else 'late'}", f"step {i}: isExpired()={out}, {env.fpga_us() - last_reset} us since the last reset, timeout {T} us"))
             else:
                 n0 = len(cap.times)
@@ -376,7 +393,7 @@ def watchdog(res, tier, T=20000):
                 for t in new:
                     if warned and t - warned[-1] < 1000000:
                         viol.append(("warnings-within-one-second", f"step {i}: warning at {t}, previous at {warned[-1]}"))
-                    if not (t - last_reset > T):
+                    if strict and not (t - last_reset > T):
                         viol.append(("warning-while-not-expired", f"step {i}: {t - last_reset} us since reset"))
                     warned.append(t)
             if viol:
@@ -384,8 +401,8 @@ def watchdog(res, tier, T=20000):
         now = env.fpga_us()
         C = 1000000 + T + 5
         fp = tuple((k, max(-C, min(C, now - v))) if k.endswith("Time") else (k, v) for k, v in sorted(vars(w).items()) if isinstance(v, int) and not isinstance(v, bool) and k != "_timeout")
-        key = (min(C, now - last_reset), min(C, now - warned[-1]) if warned else None, min(3, len(w._epochs)) if hasattr(w, "_epochs") else 0, fp)
-        res.outcome(f"wd:{key[0]}:{key[1]}")
+        key = (strict, min(C, now - last_reset), min(C, now - warned[-1]) if warned else None, min(3, len(w._epochs)) if hasattr(w, "_epochs") else 0, fp)
+        res.outcome(f"wd:{key[1]}:{key[2]}")
         return key, viol
 
     try:
@@ -409,6 +426,8 @@ def main(tier, seed):
     toggle_pair(res, tier, 3)
     watchdog(res, tier)
     watchdog(res, tier, T=1009)  # a whole-microsecond timeout whose float product with 1e6 falls just below the integer
+    for p in (2, 3):
+        toggle_debounced(res, tier, p, early=True)  # last: moves the paused clock back to 0 for every history
     rule = (
         "explicit-state BFS with replay on the real objects, state = (monitor state, implementation fields with clocks made relative and clamped): "
         "Toggle without debounce: ops (level, accessor in get/on/off/bool), exact edge-detector model, closed; Toggle with debounce (periods 2, 3 ticks): "
@@ -418,7 +437,7 @@ def main(tier, seed):
         "SimpleWatchdog: advance in {0, timeout-1us, timeout, timeout+1us, 1 s, 1 s+1us}, reset, addEpoch, isExpired (exact integer-microsecond model), printIfExpired "
         "(captured warnings at least 1 s apart, only when expired). Flat sequences to the stated depth are run as an unmerged cross-check."
     )
-    return core.finish(PID, tier, seed, res, time.time() - t0, rule, ["which presses inside a debounce window are swallowed is unspecified (monitors only)", "ButtonDebouncer start value: any value <= 0 satisfies the oracle because the simulated FPGA time exceeds the period", "set_debounce_period with a different period and setTimeout mid-history are outside the alphabet (set_debounce_period with the unchanged period is an operation)"])
+    return core.finish(PID, tier, seed, res, time.time() - t0, rule, ["which presses inside a debounce window are swallowed is unspecified (monitors only)", "ButtonDebouncer start value: any value <= 0 satisfies the oracle because the simulated FPGA time exceeds the period", "set_debounce_period with a different period is outside the alphabet (set_debounce_period with the unchanged period is an operation); setTimeout(<unchanged timeout>) is an operation of the watchdog alphabet, but between it and the next reset() only the warning rate limit is checked (whether setTimeout re-arms the timer is not stated)", "debounced Toggle histories are also started from FPGA time 0 (first samples below the debounce period)"])
 
 
 def replay(path):
@@ -433,7 +452,11 @@ def replay(path):
         toggle_debounced(res, main_tier, p)
         debouncer(res, main_tier, p)
         periodic_filter(res, main_tier, p)
+    toggle_pair(res, main_tier, 3)
     watchdog(res, main_tier)
+    watchdog(res, main_tier, T=1009)
+    for p in (2, 3):
+        toggle_debounced(res, main_tier, p, early=True)
     for k, v in res.violations.items():
         print(k, v["msg"])
     return 1 if res.violations else 0
